@@ -28,6 +28,15 @@ THEOREMS = [
     "PorepyVerif.C36.transpose_involutive",
     "PorepyVerif.C36.slicer_eq_spec",
     "PorepyVerif.C36.run_eq_specRun",
+    "PorepyVerif.C36.run_eq_of_inv",
+    "PorepyVerif.C36.run_eq_specRun_dec",
+    "PorepyVerif.C36.run_eq_specRun_wf",
+    "PorepyVerif.C36.slicer_eq_spec_wf",
+    "PorepyVerif.C36.wfB_iff",
+    "PorepyVerif.C36.goodB_iff",
+    "PorepyVerif.C36.shapedB_sound",
+    "PorepyVerif.C36.progGoodB_sound",
+    "PorepyVerif.C36.applyCore_flag_irrelevant",
     "PorepyVerif.C36.ropNow_eq",
     "PorepyVerif.C36.chainNow_eq",
     "PorepyVerif.C36.transposeNow_eq",
@@ -57,11 +66,13 @@ TRUSTED = [
     "dumping and re-applying every slicer at the end of each program",
 ]
 EXPLANATION = ("FULL: model = constructor, _slice_vector, _slice_matrix (raw CSR arrays, argsort/cumsum algorithm), AdArray and scalar handling, transpose, copy, "
-               "reverse operations and slicer chaining; theorems: every slicing step equals multiplication by the explicit projection matrix "
-               "(vector, 2-d, CSR incl. storage layout, AdArray value+Jacobian, scalar), transposition (incl. involutivity), chaining, pending operations "
-               "(incl. s / AdArray and s ** AdArray by the forward-mode rules), and "
-               "run_eq_specRun for whole programs. Two open findings (a second pending operation overwrites the first; transposing a chain drops it): "
-               "the model follows the property there.")
+               "reverse operations and slicer chaining with composed pending operations (code after repair a33b43101), the pp.ad.Projection / "
+               "sum_projection_list wrappers and the unsupported-operation errors; theorems: every slicing step equals multiplication by the explicit "
+               "projection matrix (vector, 2-d, CSR incl. storage layout, AdArray value+Jacobian, scalar), transposition (incl. involutivity, flag "
+               "irrelevance), chaining, pending operations (incl. s / AdArray, s ** AdArray), and run_eq_specRun_dec / run_eq_specRun_wf for whole programs, "
+               "whose hypotheses are decidable checks on the program text that the Lean driver evaluates for every generated case (a case covered by "
+               "neither is reported as a disagreement). Two open findings in the operator-level wrappers (sum_projection_list mutates its operand; "
+               "Projection.transpose drops the chained factor): the model follows the property there.")
 ASSUMPTIONS = ["index lists are duplicate-free ('permutations, injections, restrictions'; Core.Good) for the program-level theorem; forward slicing needs only distinct range indices",
                "values are exact in binary64 (dyadic generator); / and ** are compared with tolerance"]
 
@@ -87,11 +98,13 @@ def _sizes(dom, ran, rsize, dsize):
     return (dsize if dsize is not None else max(d) + 1, rsize if rsize is not None else max(r) + 1, d, r)
 
 
-def _gen_new(rng, i, n):
+def _gen_new(rng, i, n, allow_dup=True):
     """A constructor statement for a slicer whose operand has n rows. Returns (stmt, info|None)."""
     mode = rng.choice(["restrict"] * 6 + ["restrict_rs"] * 4 + ["prolong"] * 4 + ["both"] * 6 + ["perm"] * 4 + ["perm2"] * 4
                       + ["inplace"] * 4 + ["empty"] * 2 + ["dupdom"] * 2 + ["bad"])
     dom = ran = rsize = dsize = None
+    if mode == "dupdom" and not allow_dup:
+        mode = "restrict"
     if n == 0 and mode not in ("empty", "bad"):
         mode = "empty"
     if mode == "restrict" or mode == "restrict_rs":
@@ -144,6 +157,11 @@ def _gen_new(rng, i, n):
     if ran is not None and dom is None and dsize is None and rng.random() < 0.3:
         dsize = n
     stmt = {"op": "new", "i": i, "dom": dom, "ran": ran, "rsize": rsize, "dsize": dsize}
+    if dom is not None and ran is not None and dom and mode != "dupdom" and rng.random() < 0.5:
+        # entry through the operator-level wrapper pp.ad.Projection (all four arguments are mandatory there)
+        stmt["rsize"] = rsize = rsize if rsize is not None else max(ran) + 1 + rng.randint(0, 1)
+        stmt["dsize"] = dsize = dsize if dsize is not None else n
+        stmt["via"] = "projection"
     sz = _sizes(dom, ran, rsize, dsize)
     if sz is None:
         return stmt, None
@@ -199,12 +217,15 @@ ALLOWED = {  # operand kinds y for which `a sym (S @ y)` is meaningful Python
 def gen_case(rng, tier):
     big = tier != "quick"
     nst = rng.randint(2, 12 if not big else 18)
-    allow_sites = rng.random() < 0.06
+    allow_sites = rng.random() < 0.06   # Projection.transpose() of a combined projection (known finding)
+    multi = rng.random() < 0.35         # several pending operand operations on one slicer
+    scale = rng.choice([Fraction(2) ** 40, Fraction(1, 2 ** 30)]) if rng.random() < 0.1 else None  # extreme scale of the operands
     stmts, vars_ = [], []
+    has_T = has_dup = False  # a program either transposes or uses repeated domain indices (two theorems, two hypotheses)
     nxt = 0
     for step in range(nst):
         usable = [v for v in vars_ if v is not None]
-        choice = rng.choice(["new", "new", "apply", "apply", "apply", "rop", "rop", "chain", "chain", "T", "copy"]) if usable else "new"
+        choice = rng.choice(["new"] * 4 + ["apply"] * 6 + ["rop"] * 4 + ["chain"] * 4 + ["T", "T", "TP", "copy", "copy", "unsup"][: 6 if rng.random() < 0.5 else 5]) if usable else "new"
         if step == nst - 1 and usable:
             choice = "apply"
         if choice == "new":
@@ -212,7 +233,10 @@ def gen_case(rng, tier):
             n = rng.choice(outs) if outs and rng.random() < 0.6 else rng.randint(1, 6 if not big else 9)
             if rng.random() < 0.03:
                 n = 0
-            st, info = _gen_new(rng, nxt, n)
+            elif rng.random() < 0.08:
+                n = 1  # size-1 operand space
+            st, info = _gen_new(rng, nxt, n, allow_dup=not has_T)
+            has_dup = has_dup or (info is not None and not info["good"])
             stmts.append(st)
             vars_.append(info)
             nxt += 1
@@ -221,23 +245,34 @@ def gen_case(rng, tier):
             stmts.append({"op": "copy", "i": nxt, "j": v["i"]})
             vars_.append(dict(v, i=nxt, kinds=set(v["kinds"]), syms=set(v["syms"])))
             nxt += 1
-        elif choice == "T":
-            cands = [v for v in usable if v["good"] and not v["left"] and (allow_sites or not v["pend"])]
-            if not cands:
+        elif choice == "unsup":
+            v = rng.choice(usable)
+            stmts.append({"op": "unsup", "j": v["i"], "what": rng.choice(["*", "/", "+", "-", "**", "neg", "matmul-str", "matmul-3d"])})
+        elif choice in ("T", "TP"):
+            cands = [v for v in usable if v["good"] and (not v["left"] or rng.random() < 0.05)
+                     and (choice == "T" or allow_sites or not v["pend"])]
+            if not cands or has_dup:
                 continue
             v = rng.choice(cands)
-            stmts.append({"op": "T", "i": nxt, "j": v["i"]})
+            has_T = True
+            stmts.append({"op": choice, "i": nxt, "j": v["i"]})
+            if v["left"]:  # a pending operand operation cannot be transposed: ValueError, nothing is built
+                vars_.append(None)
+                nxt += 1
+                continue
             vars_.append({"i": nxt, "n_in": v["n_out"], "n_out": v["T_out"], "T_out": v["n_out"], "good": True, "full": False,
                           "kinds": {"s", "v", "a", "csr", "ad"}, "pend": v["pend"], "left": False, "final": False, "len": v["len"],
-                          "syms": set(), "site": v["site"] or v["pend"]})
+                          "syms": set(), "site": v["site"] or (choice == "TP" and v["pend"])})
             nxt += 1
         elif choice == "rop":
-            cands = [v for v in usable if not v["final"] and v["n_out"] is not None and (allow_sites or not v["pend"])]
+            cands = [v for v in usable if not v["final"] and v["n_out"] is not None and (multi or not v["left"])]
             if not cands:
                 continue
             v = rng.choice(cands)
-            ak = rng.choice(["s", "s", "s", "v", "v", "m"])
+            ak = rng.choice(["s", "s", "s", "v", "v", "m"]) if not v["left"] else rng.choice(["s", "s", "v"])
             syms = [s for (k, s) in ALLOWED if k == ak and (ALLOWED[(k, s)] & v["kinds"])]
+            if v["left"]:  # a second operand operation: keep to + - * so that every intermediate value stays exact
+                syms = [s for s in syms if s in ("+", "-", "*")]
             if not syms:
                 continue
             sym = rng.choice(syms)
@@ -271,19 +306,22 @@ def gen_case(rng, tier):
             vars_.append({"i": nxt, "n_in": v["n_in"], "n_out": None if final else n_out, "T_out": v["T_out"], "good": v["good"], "full": v["full"],
                           "kinds": (v["kinds"] & ALLOWED[(ak, sym)]) - ({"ad"} if (sym == "**" and "ln" not in st["a"]) else set()),
                           "pend": True, "left": True, "final": final, "len": v["len"],
-                          "syms": v["syms"] | {sym}, "site": v["site"] or v["pend"]})
+                          "syms": v["syms"] | {sym}, "site": v["site"], "nleft": v.get("nleft", 0) + 1})
             nxt += 1
         elif choice == "chain":
             pairs = [(a, b) for a in usable for b in usable
                      if not b["final"] and b["n_out"] is not None and b["n_out"] == a["n_in"] and a["len"] + b["len"] <= 3
-                     and (allow_sites or not b["pend"])]
+                     and not (a["left"] and b["left"] and not (a["syms"] <= {"+", "-", "*"}))]
             if not pairs:
                 continue
             a, b = rng.choice(pairs)  # S_new = a @ b : b is applied first
             stmts.append({"op": "chain", "i": nxt, "j": a["i"], "k": b["i"]})
+            if rng.random() < 0.08:
+                stmts[-1]["via"] = "sumproj"  # pp.ad.sum_projection_list([P_a @ P_b])
             vars_.append({"i": nxt, "n_in": b["n_in"], "n_out": a["n_out"], "T_out": b["T_out"], "good": a["good"] and b["good"],
                           "full": False, "kinds": a["kinds"] & b["kinds"], "pend": True, "left": a["left"] or b["left"], "final": a["final"],
-                          "len": a["len"] + b["len"], "syms": a["syms"] | b["syms"], "site": a["site"] or b["site"] or b["pend"]})
+                          "len": a["len"] + b["len"], "syms": a["syms"] | b["syms"], "site": a["site"] or b["site"],
+                          "nleft": a.get("nleft", 0) + b.get("nleft", 0)})
             nxt += 1
         else:  # apply
             v = rng.choice(usable)
@@ -299,8 +337,29 @@ def gen_case(rng, tier):
                 n -= 1  # too few rows: IndexError unless the indices happen to fit
             elif r < 0.12:
                 n += rng.randint(1, 2)  # more rows than the slicer's domain size (allowed: P gets more columns)
-            stmts.append({"op": "apply", "j": v["i"], "y": _gen_y(rng, kind, n, "**" in v["syms"])})
+            y = _gen_y(rng, kind, n, "**" in v["syms"])
+            if scale is not None and kind != "s" and "**" not in v["syms"]:
+                y = _scale_y(y, scale)
+            stmts.append({"op": "apply", "j": v["i"], "y": y})
+            if rng.random() < 0.1:  # the same application once more: slicing must not leave state behind
+                stmts.append(dict(copy.deepcopy(stmts[-1]), repeat=True))
     return {"stmts": stmts}
+
+
+def _scale_y(y, c):
+    sc = lambda xs: [frac(Fraction(x) * c) for x in xs]
+    y = copy.deepcopy(y)
+    if y["k"] == "v":
+        y["v"] = sc(y["v"])
+    elif y["k"] == "a":
+        y["rows"] = [sc(r) for r in y["rows"]]
+    elif y["k"] == "csr":
+        y["data"] = sc(y["data"])
+    elif y["k"] == "ad":
+        y["v"] = sc(y["v"])
+        y["jac"]["data"] = sc(y["jac"]["data"])
+    y["scaled"] = True
+    return y
 
 
 # ----------------------------------------------------------------------------- real objects
@@ -341,17 +400,30 @@ def _arr(x):
     return None if x is None else np.array(x, dtype=int)
 
 
-def _exec_stmt(st, env):
+def _exec_stmt(st, env, check_operands=False):
     """Run one statement on the real code. Returns the new slicer / the result of `S @ y`."""
     import porepy as pp
     AS = pp.matrix_operations.ArraySlicer
     op = st["op"]
     if op == "new":
+        if st.get("via") == "projection":
+            return pp.ad.Projection(_arr(st["dom"]), _arr(st["ran"]), st["dsize"], st["rsize"]).parse(None)
         return AS(domain_indices=_arr(st.get("dom")), range_indices=_arr(st.get("ran")), range_size=st.get("rsize"), domain_size=st.get("dsize"))
     if op == "copy":
         return env[st["j"]].copy()
     if op == "T":
         return env[st["j"]].T
+    if op == "TP":
+        return _as_projection(env[st["j"]]).transpose().parse(None)
+    if op == "unsup":
+        S, w = env[st["j"]], st["what"]
+        if w == "neg":
+            return -S
+        if w == "matmul-str":
+            return S @ "abc"
+        if w == "matmul-3d":
+            return {"core": AS(domain_indices=np.array([0]), range_indices=np.array([1]), range_size=3) @ np.zeros((2, 2, 2))}
+        return eval(f"S {w} 2.0")
     if op == "rop":
         a, S, sym = _const_obj(st["a"]), env[st["j"]], st["sym"]
         if st.get("via") == "dunder":
@@ -359,10 +431,28 @@ def _exec_stmt(st, env):
             return getattr(S, name)(a)
         return eval(f"a {sym} S")
     if op == "chain":
+        if st.get("via") == "sumproj":
+            Pj, Pk = _as_projection(env[st["j"]]), _as_projection(env[st["k"]])
+            res = pp.ad.sum_projection_list([Pj @ Pk]).parse(None)
+            if check_operands and (Pk._slicer is not env[st["k"]] or Pj._slicer is not env[st["j"]]):
+                raise _OperandMutated()
+            return res
         return env[st["j"]] @ env[st["k"]]
     if op == "apply":
         return env[st["j"]] @ _y_obj(st["y"])
     raise ValueError(op)
+
+
+class _OperandMutated(Exception):
+    """pp.ad.sum_projection_list replaced the slicer of one of the Projection operands it was given."""
+
+
+def _as_projection(S):
+    """A pp.ad.Projection operator whose underlying slicer is S (as sum_projection_list itself installs combined slicers)."""
+    import porepy as pp
+    P = pp.ad.Projection(S.domain_indices, S.range_indices, int(S.domain_size), int(S.range_size))
+    P._slicer = S
+    return P
 
 
 def _is_slicer(x):
@@ -371,8 +461,9 @@ def _is_slicer(x):
 
 
 def _core_dump(S):
-    return {"dom": [int(x) for x in S._domain_indices], "ran": [int(x) for x in S._range_indices], "dsize": int(S._domain_size),
-            "rsize": int(S._range_size), "onto": bool(S._is_onto), "transposed": bool(S._is_transposed)}
+    # index lists and sizes through the public accessors
+    return {"dom": [int(x) for x in S.domain_indices], "ran": [int(x) for x in S.range_indices], "dsize": int(S.domain_size),
+            "rsize": int(S.range_size), "onto": bool(S._is_onto), "transposed": bool(S._is_transposed)}
 
 
 def _kind_of(o):
@@ -452,12 +543,14 @@ def impl_run(case):
                 r = _exec_stmt(st, env)
                 if st["op"] == "apply":
                     out.append(_val_dump(r))
+                elif st["op"] == "unsup":
+                    out.append({"no-error": type(r).__name__})
                 else:
                     env[st["i"]] = r
                     out.append({"slicer": _slicer_dump(r)})
             except Exception as e:
                 out.append(err_kind(e))
-        out.append([{"i": i, "slicer": _slicer_dump(env[i])} for i in sorted(env)])
+        out.append({"covered": True, "slicers": [{"i": i, "slicer": _slicer_dump(env[i])} for i in sorted(env)]})
     return out
 
 
@@ -483,8 +576,17 @@ def model_decode(outs, case):
             o = {"slicer": o["slicer"]}
         res.append(o)
     last = outs[-1]
-    res.append(sorted(last, key=lambda d: d["i"]) if isinstance(last, list) else last)
+    if isinstance(last, dict) and "slicers" in last:
+        cov = "good" if last["progGood"] else ("wf-no-transpose" if last["progWf"] else "NOT-COVERED")
+        _COVER[cov] += 1
+        res.append({"covered": cov != "NOT-COVERED", "slicers": sorted(last["slicers"], key=lambda d: d["i"])})
+    else:
+        res.append(last)
     return res
+
+
+from collections import Counter
+_COVER = Counter()  # which program theorem's decidable hypothesis (evaluated by the Lean driver) covers each case
 
 
 def _drop_raw(o):
@@ -502,8 +604,8 @@ def _raw_unknown(o):
 
 
 def _tainted(case):
-    """Variables built through a defect site of the two known findings (a reverse operation / chaining / .T applied to
-    a slicer that already carries a pending operation): there the model follows the property, not the present code."""
+    """Variables built through the defect site of the known finding (pp.ad.Projection.transpose() of a combined
+    projection): there the model follows the property, not the present code."""
     pend, taint = {}, {}
     for st in case["stmts"]:
         op = st["op"]
@@ -513,11 +615,13 @@ def _tainted(case):
             elif op == "copy":
                 pend[st["i"]], taint[st["i"]] = pend[st["j"]], taint[st["j"]]
             elif op == "T":
+                pend[st["i"]], taint[st["i"]] = pend[st["j"]], taint[st["j"]]
+            elif op == "TP":
                 pend[st["i"]], taint[st["i"]] = pend[st["j"]], taint[st["j"]] or pend[st["j"]]
             elif op == "rop":
-                pend[st["i"]], taint[st["i"]] = True, taint[st["j"]] or pend[st["j"]]
+                pend[st["i"]], taint[st["i"]] = True, taint[st["j"]]
             elif op == "chain":
-                pend[st["i"]], taint[st["i"]] = True, taint[st["j"]] or taint[st["k"]] or pend[st["k"]]
+                pend[st["i"]], taint[st["i"]] = True, taint[st["j"]] or taint[st["k"]]
         except KeyError:
             pass
     return {i for i, t in taint.items() if t}
@@ -535,10 +639,11 @@ def compare(impl, model, case):
     if bad:
         impl, model = list(impl), list(model)
         for k, st in enumerate(case["stmts"]):
-            if st.get("i" if st["op"] != "apply" else "j") in bad:
+            if st.get("i" if st["op"] not in ("apply", "unsup") else "j") in bad:
                 impl[k] = model[k] = "skipped: built through a known-finding site"
-        impl[-1] = [d for d in impl[-1] if d["i"] not in bad]
-        model[-1] = [d for d in model[-1] if d["i"] not in bad] if isinstance(model[-1], list) else model[-1]
+        impl[-1] = dict(impl[-1], slicers=[d for d in impl[-1]["slicers"] if d["i"] not in bad])
+        if isinstance(model[-1], dict) and "slicers" in model[-1]:
+            model[-1] = dict(model[-1], slicers=[d for d in model[-1]["slicers"] if d["i"] not in bad])
     return _compare_lists(impl, model, tol)
 
 
@@ -621,7 +726,7 @@ def oracle(case):
     (composed for chains, transposed for .T, followed by the pending operand operations), also when the
     slicer objects are used again at the end of the program."""
     tol = 1e-9 if any(st.get("sym") in ("/", "**") for st in case["stmts"]) else None
-    env, ref, now, sites = {}, {}, {}, {}
+    env, ref, now, sites, deferred = {}, {}, {}, {}, []
     # ref[i]: steps under the property; now[i]: steps the present code is known to produce (findings); sites[i]: defect sites in provenance
 
     def check(i, yobj, where):
@@ -666,6 +771,16 @@ def oracle(case):
                 if r:
                     return r
                 continue
+            if op == "unsup":
+                if st["j"] not in env:
+                    continue
+                try:
+                    _exec_stmt(st, env)
+                    return {"what": f"stmt {k}: unsupported operation {st['what']} on a slicer did not raise", "key": "unsupported-no-error:" + st["what"]}
+                except ValueError:
+                    continue
+                except Exception as e:
+                    return {"what": f"stmt {k}: unsupported operation {st['what']} raised {type(e).__name__}, not ValueError", "key": "unsupported-wrong-error:" + st["what"]}
             i = st["i"]
             # expected denotation
             try:
@@ -678,41 +793,51 @@ def oracle(case):
                 elif op == "copy":
                     j = st["j"]
                     e_ref, e_now, e_sites = list(ref[j]), list(now[j]), list(sites[j])
-                elif op == "T":
+                elif op in ("T", "TP"):
                     j = st["j"]
                     if any(s[0] != "proj" for s in ref[j]):
                         raise _Expected("ValueError")
                     e_ref = [("proj", _tcore(s[1])) for s in reversed(ref[j])]
-                    e_now = [("proj", _tcore(now[j][0][1]))]
-                    e_sites = list(sites[j]) + ([(k, "transpose-drops-pending")] if len(now[j]) > 1 else [])
+                    if op == "T":
+                        e_now = [("proj", _tcore(s[1])) for s in reversed(now[j])] if all(s[0] == "proj" for s in now[j]) else list(e_ref)
+                        e_sites = list(sites[j])
+                    else:  # Projection.transpose() rebuilds the slicer from the index lists only: a chained factor is lost
+                        e_now = [("proj", _tcore(now[j][0][1]))]
+                        e_sites = list(sites[j]) + ([(k, "projection-transpose-drops-chain")] if len(now[j]) > 1 else [])
                 elif op == "rop":
                     j = st["j"]
                     a = _const_obj(st["a"])
                     e_ref = ref[j] + [("left", a, st["sym"])]
-                    e_now = [now[j][0], ("left", a, st["sym"])]
-                    e_sites = list(sites[j]) + ([(k, "pending-overwritten")] if len(now[j]) > 1 else [])
+                    e_now = now[j] + [("left", a, st["sym"])]
+                    e_sites = list(sites[j])
                 elif op == "chain":
                     j, kk = st["j"], st["k"]
                     e_ref = ref[kk] + ref[j]
-                    e_now = [now[kk][0]] + now[j]
-                    e_sites = list(sites[j]) + list(sites[kk]) + ([(k, "pending-overwritten")] if len(now[kk]) > 1 else [])
+                    e_now = now[kk] + now[j]
+                    e_sites = list(sites[j]) + list(sites[kk])
                 exp_err = None
             except _Expected as e:
                 exp_err = e.kind
             except KeyError:
                 continue  # refers to a variable that was never built
             try:
-                S = _exec_stmt(st, env)
+                S = _exec_stmt(st, env, check_operands=True)
                 got_err = None
             except KeyError:
                 continue
+            except _OperandMutated:
+                deferred.append({"what": f"stmt {k}: pp.ad.sum_projection_list([P_j @ P_k]) replaced the slicer of its operand P_k by the combined "
+                                         "slicer (a later P_k @ x is silently P_j @ P_k @ x)", "key": "projection-sum-mutates-operand"})
+                S = _exec_stmt(st, env)
+                got_err = None
             except Exception as e:
                 got_err = type(e).__name__
             if exp_err or got_err:
                 if exp_err != got_err:
-                    if op == "T" and got_err is None:
+                    if op in ("T", "TP") and got_err is None:
                         # transposing a slicer that carries a pending number / array operation silently drops it
-                        return {"what": f"stmt {k}: .T of a slicer with a pending operand operation did not raise", "key": "transpose-drops-pending"}
+                        return {"what": f"stmt {k}: transposing a slicer with a pending operand operation did not raise",
+                                "key": "transpose-drops-pending" if op == "T" else "projection-transpose-drops-chain"}
                     return {"what": f"stmt {k}: {op} raised {got_err}, expected {exp_err}", "key": f"constructor:{op}:{got_err}:{exp_err}"}
                 continue
             if not _is_slicer(S):
@@ -726,7 +851,7 @@ def oracle(case):
             r = check(i, probe, "re-use at end")
             if r:
                 return r
-    return None
+    return deferred[0] if deferred else None
 
 
 def _short(x):
@@ -783,4 +908,32 @@ def stats(cases, impl_outs):
                         c["new:repeated-domain-index"] += 1
                 if st["op"] == "chain":
                     c["chain-length:%d" % (1 + sum(1 for s in o["slicer"]["pending"] if "proj" in s))] += 1
+    for case in cases:
+        sts = case["stmts"]
+        Ts = {st["i"] for st in sts if st["op"] in ("T", "TP")}
+        c["stratum:T-of-T"] += sum(1 for st in sts if st["op"] in ("T", "TP") and st["j"] in Ts)
+        c["stratum:new-via-pp.ad.Projection"] += sum(1 for st in sts if st["op"] == "new" and st.get("via") == "projection")
+        c["stratum:chain-via-sum_projection_list"] += sum(1 for st in sts if st["op"] == "chain" and st.get("via") == "sumproj")
+        c["stratum:repeated-apply"] += sum(1 for st in sts if st.get("repeat"))
+        c["stratum:extreme-scale-operand"] += sum(1 for st in sts if st["op"] == "apply" and st["y"].get("scaled"))
+        c["stratum:size-1-operand"] += sum(1 for st in sts if st["op"] == "apply" and _nrows(st["y"]) == 1)
+        c["stratum:size-0-operand"] += sum(1 for st in sts if st["op"] == "apply" and _nrows(st["y"]) == 0)
+        c["stratum:unsorted-domain"] += sum(1 for st in sts if st["op"] == "new" and st.get("dom") and st["dom"] != sorted(st["dom"]))
+        c["stratum:unsorted-range"] += sum(1 for st in sts if st["op"] == "new" and st.get("ran") and st["ran"] != sorted(st["ran"]))
+        nl, two = {}, 0
+        for st in sts:
+            if st["op"] == "rop":
+                nl[st["i"]] = nl.get(st["j"], 0) + 1
+                two += nl[st["i"]] >= 2
+            elif st["op"] == "copy":
+                nl[st["i"]] = nl.get(st["j"], 0)
+            elif st["op"] == "chain":
+                nl[st["i"]] = nl.get(st["j"], 0) + nl.get(st["k"], 0)
+        c["stratum:second-pending-operand-operation"] += two
+    for k, v in _COVER.items():
+        c["covered-by-theorem-hypothesis(driver-evaluated):" + k] = v
     return dict(sorted(c.items()))
+
+
+def _nrows(y):
+    return {"s": None, "v": len(y.get("v", [])), "a": len(y.get("rows", [])), "csr": len(y.get("indptr", [0])) - 1, "ad": len(y.get("v", []))}[y["k"]]
